@@ -157,6 +157,25 @@ def corr(ctx, drv):
     ctx.count("crop_general", n_rand)
 
 
+class _Strict(np.ndarray):
+    """an array that refuses element accesses outside its bounds (negative indices included: in the compiled kernel, which runs
+    without bounds checks, they are reads / writes before the start of the buffer)"""
+
+    def _chk(self, idx):
+        ids = idx if isinstance(idx, tuple) else (idx,)
+        for ax, i in enumerate(ids):
+            if isinstance(i, (int, np.integer)) and ax < self.ndim and not (0 <= int(i) < self.shape[ax]):
+                raise IndexError(f"index {int(i)} on axis {ax} of size {self.shape[ax]}")
+
+    def __getitem__(self, idx):
+        self._chk(idx)
+        return super().__getitem__(idx)
+
+    def __setitem__(self, idx, v):
+        self._chk(idx)
+        super().__setitem__(idx, v)
+
+
 def run_case(kind, params):
     """property oracle on the real code; returns failure messages"""
     frame = np.asarray(params["frame"])
@@ -185,6 +204,19 @@ def run_case(kind, params):
             msgs.append(f"{be} back-end, {len(peaks)} peak(s), {len(r)} buffer slots: slots beyond the peak list were written")
     if len(res) == 2 and not np.array_equal(res["pixel"], res["slicing"], equal_nan=(fr.dtype.kind == "f")):
         msgs.append("the two back-ends disagree")
+    # "never read or write out of bounds": the per-pixel kernel, run as plain Python on arrays that refuse every element access
+    # outside their bounds (the compiled kernel has no bounds checks, so an access the values do not depend on goes unnoticed)
+    pyf = getattr(bc.crop_disks_from_frame, "py_func", None)
+    if pyf is not None and not params.get("sparse") and len(peaks) * (2 * c) ** 2 <= 4000:
+        buf = np.full((len(peaks), 2 * c, 2 * c), SENT, dtype=dt).view(_Strict)
+        try:
+            pyf(np.asarray(peaks, dtype=np.int64).reshape(-1, 2), fr.view(_Strict), c, buf)
+            for i, p in enumerate(peaks):
+                if not np.array_equal(np.asarray(buf[i]), spec_window(fr, c, p), equal_nan=(fr.dtype.kind == "f")):
+                    msgs.append(f"pixel back-end (interpreted), frame {fr.shape}, c={c}, peak {p}: wrong values")
+                    break
+        except IndexError as e:
+            msgs.append(f"pixel back-end, frame {fr.shape}, c={c}, peaks {peaks}: element access outside an array ({e})")
     return msgs[:6]
 
 
